@@ -209,6 +209,12 @@ func (s *Cron) Add(j *Job) error {
 		return err
 	}
 
+	// A new job has no entry in the time bucket yet.  Whatever TId
+	// the caller sent (AddHandler decodes the request body into the
+	// Job) is not this job's: update() would delete that key, which
+	// could be another job's entry.
+	j.TId = ""
+
 	{
 		part := s.Partition(j.Account)
 		jobs := "jobs" + part
